@@ -29,6 +29,7 @@ PASSWORDS = [b"", b"p", b"password", b"\x00", b"\x00\x00pw\x00", b"\xff\xfe\x80 
 IDS = [b"", b"alice", b"bob", b"\x00", b"a" * 70, b"\xc3\xa9\xff", b"ab", b"c", b"a", b"bc"]
 
 TOY_INT = [(23, 11, 2), (23, 11, 4), (47, 23, 2), (59, 29, 4), (2039, 1019, 4), (263, 131, 2), (1019, 509, 4)]
+TOY_Q2 = [(7, 2, 6), (23, 2, 22), (3, 2, 2)]
 # a custom group of cryptographic shape whose widths are NOT those of the shipped sets: q is the first prime after
 # 2^300 + 0x5eed (301 bits = 38 bytes: wider than 32 bytes, not a multiple of 8 or of 4 bits), p = k*q + 1 the first
 # such prime of 523 bits (66 bytes, top byte 0x04), g = 2^((p-1)/q) mod p.  Behaviour keyed on "scalars are at most 32
@@ -169,6 +170,16 @@ class World:
                                     self.ps["%s/alt%s" % (name, "MNS"[which])] = self.mkps(pid - 1, gid, "int", name + "/alt" + "MNS"[which], seeds=tuple(seeds), toy=True, pqg=(p, q, g))
                                     self.ps["%s/alt%s" % (name, "MNS"[which])].base = name
                                     break
+                gid += 1
+        if "toyint" in want:
+            # degenerate but valid groups of order 2 (p = 3 mod 4, g = p-1 a non-residue): group objects only, no
+            # parameter sets (every blinding element would be the generator).  Anything that assumes "members of the
+            # subgroup are squares" or an odd order shows here.
+            for (p, q, g) in TOY_Q2:
+                name = "toy%d_%d_%d" % (p, q, g)
+                if self.pre("group %d int %d %d %d" % (gid, p, q, g)) == "ok":
+                    self.groups[name] = gid
+                    self.gs[name] = self.mkps(None, gid, "int", name, toy=True, pqg=(p, q, g))
                 gid += 1
         if "toyed" in want:
             for (Q, d, L) in refmath.TOY_CURVES[:2]:
